@@ -261,3 +261,159 @@ Proof. unfold from_str. intros E SW. destruct (from_str_bech pkv s (find_prefix 
     clear FB. revert E. generalize (b2n p0). intros n. induction builtin as [|net r IH]; cbn [from_str_b58]; [discriminate|].
     destruct (_ || _); [intros E; exact (from_base58_not_segwit _ _ _ E SW)|exact IH]. Qed.
 End AddrProofs.
+
+(* ================================================================ C06 *)
+Lemma bits_of_length k v : length (bits_of k v) = k.
+Proof. unfold bits_of. now rewrite map_length, rev_length, seq_length. Qed.
+Lemma bits_of_syms_length vs : length (bits_of_syms vs) = (5 * length vs)%nat.
+Proof. induction vs as [|v vs IH]; [reflexivity|]. unfold bits_of_syms in *. cbn [flat_map length]. rewrite app_length, bits_of_length, IH. lia. Qed.
+Lemma chunk8_length m : forall bs, (length bs <= 8 * m + 7)%nat -> length (chunk8 bs) = (length bs / 8)%nat.
+Proof. induction m as [|m IH]; intros bs L; do 8 (destruct bs as [|? bs]; [reflexivity|]).
+  - cbn [length] in L. lia.
+  - cbn [chunk8 length]. rewrite IH by (cbn [length] in L; lia). lia. Qed.
+Lemma fes_to_bytes_length vs : length (fes_to_bytes vs) = (length vs * 5 / 8)%nat.
+Proof. unfold fes_to_bytes. rewrite (chunk8_length (length (bits_of_syms vs))) by lia. rewrite bits_of_syms_length. f_equal. lia. Qed.
+
+(* the known finding F5 as a decidable class of parse results *)
+Definition known_F5 (a : address) : Prop :=
+  a_blinder a <> None /\ exists v prog, a_payload a = WitnessProgram v prog /\ v <> 0 /\ (length prog < 2)%nat.
+(* what the property promises about every successfully parsed address *)
+Definition required_code (blinded : bool) (v : N) : code :=
+  if blinded then (if v =? 0 then blech32 else blech32m) else (if v =? 0 then bech32 else bech32m).
+Definition shape_ok (s : bytes) (a : address) : Prop :=
+  match a_payload a with
+  | PubkeyHash h | ScriptHash h => length h = 20%nat
+  | WitnessProgram v prog =>
+      v <= 16 /\ (2 <= length prog <= 40)%nat /\ (v = 0 -> length prog = 20%nat \/ length prog = 32%nat) /\
+      (* the checksum variant required for its version *)
+      exists h d w, rsplit x31 s = Some (h, d) /\ syms_of d = Some w /\
+                    valid_codeword (required_code (match a_blinder a with Some _ => true | None => false end) v) (hrp_expand h ++ w) = true
+  end.
+
+Section C06Proofs.
+Variable H : bytes -> bytes. Variable pkv : bytes -> bool.
+
+Lemma from_base58_shape data p a s : from_base58 pkv data p = AOk a -> shape_ok s a /\ a_params a = p /\
+  match a_blinder a with Some b => length b = 33%nat /\ pkv b = true | None => True end.
+Proof. unfold from_base58. intros E. destruct data as [|bp bd]; [discriminate|]. cbv zeta in E.
+  destruct (b2n bp =? p_blinded p).
+  - destruct bd as [|prefix pkh]; [discriminate|]. destruct (Nat.eqb_spec (length pkh) 53) as [L|]; [|discriminate]. cbn [negb] in E.
+    destruct (pkv (firstn 33 pkh)) eqn:PK; [|discriminate].
+    assert (L20 : length (skipn 33 pkh) = 20%nat) by (rewrite skipn_length; lia).
+    assert (L33 : length (firstn 33 pkh) = 33%nat) by (rewrite firstn_length; lia).
+    destruct (b2n prefix =? p_p2pkh p); [|destruct (b2n prefix =? p_p2sh p); [|discriminate]]; inversion E; subst; unfold shape_ok; cbn; auto.
+  - destruct (Nat.eqb_spec (length bd) 20) as [L|]; [|discriminate]. cbn [negb] in E.
+    destruct (b2n bp =? p_p2pkh p); [|destruct (b2n bp =? p_p2sh p); [|discriminate]]; inversion E; subst; unfold shape_ok; cbn; auto. Qed.
+
+Lemma cfg_bech_facts : sw_max_version cfg_bech = 16 /\ sw_len_min cfg_bech = 2%nat /\ sw_len_max cfg_bech = 40%nat /\ sw_len_v0_a cfg_bech = 20%nat /\ sw_len_v0_b cfg_bech = 32%nat.
+Proof. repeat split. Qed.
+Lemma cfg_blech_facts : sw_max_version cfg_blech = 16 /\ sw_len_min cfg_blech = 2%nat /\ sw_len_max cfg_blech = 73%nat /\ sw_len_v0_a cfg_blech = 53%nat /\ sw_len_v0_b cfg_blech = 65%nat.
+Proof. repeat split. Qed.
+
+Lemma from_bech32_shape s bl p a : from_bech32 pkv s bl p = AOk a -> ~ known_F5 a -> shape_ok s a /\ a_params a = p /\
+  match a_blinder a with Some b => bl = true /\ length b = 33%nat /\ pkv b = true | None => bl = false end.
+Proof. unfold from_bech32. intros E NK. destruct bl.
+  - destruct (segwit_decode cfg_blech s) as [[v data]|] eqn:D; [|discriminate].
+    destruct (Nat.ltb_spec (length data) 33) as [|L33]; [discriminate|].
+    assert (LPK : length (firstn 33 data) = 33%nat) by (rewrite firstn_length; lia).
+    assert (LSK : length (skipn 33 data) = (length data - 33)%nat) by apply skipn_length.
+    remember (firstn 33 data) as pk eqn:Epk. remember (skipn 33 data) as prog eqn:Eprog. clear Epk Eprog.
+    destruct (pkv pk) eqn:PK; [|discriminate].
+    inversion E; subst a; clear E. destruct (segwit_decode_inv _ _ _ _ D) as (h & d & w & rest & body & R & P & S & -> & LV & VC & _ & F & VP & VW & ->).
+    destruct cfg_blech_facts as (F1 & F2 & F3 & F4 & F5). rewrite F1 in LV.
+    apply validate_wpl_ok in VW as [[LB UB] V0]. rewrite F2 in LB. rewrite F3 in UB. rewrite F4, F5 in V0.
+    rewrite fes_to_bytes_length in L33, LSK.
+    apply validate_checksum_ok in VC as [_ V]; [|unfold code_for; destruct (v =? 0); vm_compute; discriminate].
+    pose proof LSK as LP.
+    split; [|split; [reflexivity|cbn [a_blinder]; split; [reflexivity|split; assumption]]].
+    unfold shape_ok. cbn [a_payload a_blinder]. rewrite LP. split; [assumption|]. split; [|split].
+    + destruct (N.eq_dec v 0) as [->|NZ]; [specialize (V0 eq_refl); lia|]. split; [|lia].
+      destruct (Nat.lt_ge_cases (length body * 5 / 8 - 33) 2) as [LT|]; [|assumption]. exfalso. apply NK. split; [cbn; discriminate|].
+      eexists _, _. split; [reflexivity|]. split; [assumption|]. now rewrite LP.
+    + intros ->. specialize (V0 eq_refl). lia.
+    + exists h, d, (v :: rest). repeat split; try assumption; try (unfold code_for in V; unfold required_code; destruct (v =? 0); exact V).
+  - destruct (segwit_decode cfg_bech s) as [[v data]|] eqn:D; [|discriminate].
+    inversion E; subst a; clear E. destruct (segwit_decode_inv _ _ _ _ D) as (h & d & w & rest & body & R & P & S & -> & LV & VC & _ & F & VP & VW & ->).
+    destruct cfg_bech_facts as (F1 & F2 & F3 & F4 & F5). rewrite F1 in LV.
+    apply validate_wpl_ok in VW as [[LB UB] V0]. rewrite F2 in LB. rewrite F3 in UB. rewrite F4, F5 in V0.
+    apply validate_checksum_ok in VC as [_ V]; [|unfold code_for; destruct (v =? 0); vm_compute; discriminate].
+    split; [|split; reflexivity]. unfold shape_ok. cbn [a_payload a_blinder]. rewrite fes_to_bytes_length. repeat split; try assumption; try lia.
+    exists h, d, (v :: rest). repeat split; try assumption; try (unfold code_for in V; unfold required_code; destruct (v =? 0); exact V). Qed.
+
+(* C06_parsed_shape *)
+Theorem parsed_shape s p a : parse_with_params H pkv s p = AOk a -> ~ known_F5 a -> shape_ok s a /\ a_params a = p.
+Proof. unfold parse_with_params. intros E NK. destruct (_ || _).
+  - destruct (from_bech32_shape _ _ _ _ E NK) as (A & B & _). now split.
+  - destruct (too_long_for_base58 s); [discriminate|]. destruct (b58_decode_check H s) as [data|]; [|discriminate].
+    destruct (from_base58_shape _ _ _ s E) as (A & B & _). now split. Qed.
+
+(* FromStr is parse_with_params of one built-in network *)
+Lemma from_str_bech_none s prefix nets : from_str_bech pkv s prefix nets = None ->
+  forall p, In p nets -> match_prefix prefix (p_bech p) = false /\ match_prefix prefix (p_blech p) = false.
+Proof. induction nets as [|net r IH]; intros E p I; [contradiction|]. cbn [from_str_bech] in E.
+  destruct (match_prefix prefix (p_bech net)) eqn:MB; [discriminate|]. destruct (match_prefix prefix (p_blech net)) eqn:ML; [discriminate|].
+  destruct I as [<-|I]; [now split|now apply IH]. Qed.
+Theorem from_str_is_parse s a : from_str H pkv s = AOk a -> exists p, In p builtin /\ parse_with_params H pkv s p = AOk a.
+Proof. intros E. pose proof E as E0. unfold from_str in E. destruct (from_str_bech pkv s (find_prefix s) builtin) as [r|] eqn:FB.
+  - subst r. set (prefix := find_prefix s) in *.
+    assert (G : forall nets, (forall q, In q nets -> In q builtin) -> from_str_bech pkv s prefix nets = Some (AOk a) ->
+                exists p bl, In p builtin /\ match_prefix prefix (hrp_of p bl) = true /\ from_bech32 pkv s bl p = AOk a).
+    { induction nets as [|net r IH]; intros SUB F; [discriminate|]. cbn [from_str_bech] in F.
+      destruct (match_prefix prefix (p_bech net)) eqn:MB; [exists net, false; split; [apply SUB; now left|split; [exact MB|congruence]]|].
+      destruct (match_prefix prefix (p_blech net)) eqn:ML; [exists net, true; split; [apply SUB; now left|split; [exact ML|congruence]]|].
+      apply IH; [intros q Iq; apply SUB; now right|assumption]. }
+    destruct (G builtin (fun q Iq => Iq) FB) as (p & bl & Ip & M & F). exists p. split; [assumption|].
+    unfold parse_with_params. fold prefix. unfold match_prefix in *. destruct bl; cbn [hrp_of] in M.
+    + rewrite M, orb_true_r. exact F.
+    + rewrite M. cbn [orb]. destruct (eq_lower (p_blech p) prefix) eqn:ML; [exfalso|exact F].
+      destruct (builtin_hrps_distinct p p true false Ip Ip (eq_lower_trans_r _ _ _ ML M)) as [_ X]. discriminate.
+  - pose proof (from_str_bech_none _ _ _ FB) as NM.
+    destruct (too_long_for_base58 s) eqn:TL; [discriminate|]. destruct (b58_decode_check H s) as [[|p0 data]|] eqn:DC; try discriminate.
+    assert (G : forall nets, (forall q, In q nets -> In q builtin) -> from_str_b58 pkv (p0 :: data) (b2n p0) nets = AOk a ->
+                exists p, In p builtin /\ from_base58 pkv (p0 :: data) p = AOk a).
+    { induction nets as [|net r IH]; intros SUB F; [discriminate|]. cbn [from_str_b58] in F. destruct (_ || _).
+      - exists net. split; [apply SUB; now left|assumption]. - apply IH; [intros q Iq; apply SUB; now right|assumption]. }
+    destruct (G builtin (fun q Iq => Iq) E) as (p & Ip & F). exists p. split; [assumption|].
+    unfold parse_with_params. destruct (NM p Ip) as [-> ->]. cbn [orb]. now rewrite TL, DC. Qed.
+
+(* C06_one_network.  Two built-in networks accept the same string only in the residual case where one reads it as a segwit
+   string and the other as base58check (which needs an accidental SHA-256d checksum match). *)
+Definition segwit_path (s : bytes) (p : params) : bool := match_prefix (find_prefix s) (p_bech p) || match_prefix (find_prefix s) (p_blech p).
+
+(* the nine version bytes: blinded prefixes pairwise distinct, {p2pkh, p2sh} sets pairwise disjoint (recomputed from Gen/Tables.v) *)
+Lemma builtin_prefixes_distinct p p' : In p builtin -> In p' builtin ->
+  (p_blinded p = p_blinded p' -> p = p') /\
+  ((p_p2pkh p = p_p2pkh p' \/ p_p2pkh p = p_p2sh p' \/ p_p2sh p = p_p2pkh p' \/ p_p2sh p = p_p2sh p') -> p = p').
+Proof. intros I I'. cbn in I, I'. destruct I as [<-|[<-|[<-|[]]]], I' as [<-|[<-|[<-|[]]]]; split; intros X; try reflexivity; vm_compute in X;
+  repeat match goal with X : _ \/ _ |- _ => destruct X as [X|X] end; discriminate. Qed.
+
+Lemma from_base58_prefix data p a : from_base58 pkv data p = AOk a ->
+  exists bp bd, data = bp :: bd /\
+    ((b2n bp = p_blinded p /\ length bd = 54%nat) \/ (b2n bp <> p_blinded p /\ length bd = 20%nat /\ (b2n bp = p_p2pkh p \/ b2n bp = p_p2sh p))).
+Proof. unfold from_base58. intros E. destruct data as [|bp bd]; [discriminate|]. exists bp, bd. split; [reflexivity|]. cbv zeta in E.
+  destruct (N.eqb_spec (b2n bp) (p_blinded p)) as [EB|NB].
+  - left. destruct bd as [|prefix pkh]; [discriminate|]. destruct (Nat.eqb_spec (length pkh) 53) as [L|]; [|discriminate]. cbn [length]. split; [assumption|lia].
+  - right. destruct (Nat.eqb_spec (length bd) 20) as [L|]; [|discriminate]. cbn [negb] in E. split; [assumption|split; [assumption|]].
+    destruct (N.eqb_spec (b2n bp) (p_p2pkh p)); [now left|]. destruct (N.eqb_spec (b2n bp) (p_p2sh p)); [now right|discriminate]. Qed.
+
+Theorem one_network s p1 p2 a1 a2 : In p1 builtin -> In p2 builtin ->
+  parse_with_params H pkv s p1 = AOk a1 -> parse_with_params H pkv s p2 = AOk a2 ->
+  p1 = p2 \/ (segwit_path s p1 <> segwit_path s p2 /\ exists d, b58_decode_check H s = Ok58 d).
+Proof. intros I1 I2 E1 E2. unfold parse_with_params in E1, E2.
+  destruct (match_prefix (find_prefix s) (p_bech p1) || match_prefix (find_prefix s) (p_blech p1)) eqn:S1;
+  destruct (match_prefix (find_prefix s) (p_bech p2) || match_prefix (find_prefix s) (p_blech p2)) eqn:S2.
+  - left. unfold match_prefix in *. apply orb_true_iff in S1, S2.
+    assert (X1 : exists b1, eq_lower (hrp_of p1 b1) (find_prefix s) = true) by (destruct S1; [exists false|exists true]; assumption).
+    assert (X2 : exists b2, eq_lower (hrp_of p2 b2) (find_prefix s) = true) by (destruct S2; [exists false|exists true]; assumption).
+    destruct X1 as [b1 X1], X2 as [b2 X2]. exact (proj1 (builtin_hrps_distinct p1 p2 b1 b2 I1 I2 (eq_lower_trans_r _ _ _ X1 X2))).
+  - right. unfold segwit_path. rewrite S1, S2. split; [discriminate|]. destruct (too_long_for_base58 s); [discriminate|].
+    destruct (b58_decode_check H s) as [d|]; [eauto|discriminate].
+  - right. unfold segwit_path. rewrite S1, S2. split; [discriminate|]. destruct (too_long_for_base58 s); [discriminate|].
+    destruct (b58_decode_check H s) as [d|]; [eauto|discriminate].
+  - left. destruct (too_long_for_base58 s); [discriminate|]. destruct (b58_decode_check H s) as [data|]; [|discriminate].
+    destruct (from_base58_prefix _ _ _ E1) as (bp & bd & -> & C1). destruct (from_base58_prefix _ _ _ E2) as (bp' & bd' & EQ & C2).
+    inversion EQ; subst bp' bd'. destruct (builtin_prefixes_distinct p1 p2 I1 I2) as [DB DP].
+    destruct C1 as [[B1 L1]|(N1 & L1 & P1)], C2 as [[B2 L2]|(N2 & L2 & P2)]; try lia.
+    + apply DB. congruence.
+    + apply DP. destruct P1 as [P1|P1], P2 as [P2|P2]; rewrite <- P1, <- P2; tauto. Qed.
+End C06Proofs.
